@@ -39,6 +39,7 @@ func reexec06(c *core.Ctx) {
 	h := real06()
 	r := c.R
 	root := h.DB.Session(&gorm.Session{})
+	newRawSub06(root)
 	var seeds []uint64
 	handJoin := r.Intn(3) == 0
 	// association joins, one of them along a nested path (two joins for one Joins call)
@@ -127,7 +128,7 @@ type Bad06 struct {
 	Note struct{ Text string }
 }
 
-var failing06 = []string{"ScanRows(bad)", "Find(bad)", "First(bad)", "Create(bad)", "Save(bad)", "Delete(bad)", "Model(bad).Count", "Model(bad).Update", "Raw.Scan(bad)",
+var failing06 = []string{"Not(nil pointer to a slice)", "Where(nil pointer to a slice)", "Or(nil pointer to a slice)", "ScanRows(bad)", "Find(bad)", "First(bad)", "Create(bad)", "Save(bad)", "Delete(bad)", "Model(bad).Count", "Model(bad).Update", "Raw.Scan(bad)",
 	"Table(missing).Find", "Where(missing column).Find", "Exec(broken SQL)", "Raw(broken SQL).Rows", "Transaction(fails)", "Association(missing)", "AutoMigrate(bad)", "Select(123).Find", "Create(nil map)", "Row(broken)", "Pluck(missing)"}
 
 // failed06: an operation that fails (or is refused) when started directly from a reusable handle leaves its error with
@@ -165,7 +166,14 @@ func failed06(c *core.Ctx) {
 		op := core.Pick(r, failing06)
 		done = append(done, op)
 		var err error
+		var nilIDs *[]uint
 		switch op {
+		case "Not(nil pointer to a slice)":
+			err = hd.Not(nilIDs).Find(&[]Tag{}).Error
+		case "Where(nil pointer to a slice)":
+			err = hd.Where(nilIDs).Find(&[]Tag{}).Error
+		case "Or(nil pointer to a slice)":
+			err = hd.Where("c2 > ?", 0).Or(nilIDs).Find(&[]Tag{}).Error
 		case "ScanRows(bad)":
 			rows, e := hd.Model(&Tag{}).Rows()
 			if e != nil {
